@@ -107,6 +107,22 @@ theorem C17_rr_no_starvation (N : Nat) (pre ops : List Op) (hpre : Basic pre) (h
   intro q1 r hNpre hNops hq hd hmany
   exact rr_no_starvation N pre ops hpre hops hNpre hNops c s d l1 l2 hq hd hmany
 
+/-- **Under the interleaving schedulers every stream is FIFO as a whole** (ordered and unordered
+chunks together): with round robin (any number type) or WFQ (rationals), after any basic operation
+list the chunks pushed on stream `s` are the chunks of `s` popped so far followed by its queue. -/
+theorem C17_stream_fifo_interleaved (ops : List Op) (hops : Basic ops) (s : Nat) :
+    (let r := (rrFresh : PQ α).run ops
+     (pushesOf r.2).filter (·.sid == s) = (popsOf r.2).filter (·.sid == s) ++ r.1.policy.streamQ s) ∧
+    (∀ ws : AMap Nat, let r := (wfqFresh ws).run ops
+     (pushesOf r.2).filter (·.sid == s) = (popsOf r.2).filter (·.sid == s) ++ r.1.policy.streamQ s) := by
+  constructor
+  · have := rr_stream_fifo ops (rrFresh : PQ α) {} [] [] rrFresh_policy RR.wf_empty hops (by simp [RR.sq]) s
+    simpa using this
+  · intro ws
+    have := wfq_stream_fifo ops (wfqFresh ws) _ [] [] (wfqFresh_policy ws) (WFQ.wf_new ws) hops
+      (by simp [WFQ.sq, WFQ.new]) s
+    simpa using this
+
 /-! ### weighted fair queueing (finish tags over exact rationals)
 
 `wfqFresh ws` is `newPendingQueue` with the WFQ factory for weights `ws` followed by
